@@ -347,8 +347,11 @@ def _builder_option_cases(rng, tier):
         if "/tcp:" not in cfg or cfg.endswith("|-") or c.meta.get("payload", "").startswith("len:"):
             continue
         n += 1
-        if tier == "quick" and n > 400:
-            break
+        # the empty raw area / the empty element list (an options call that has to CLEAR what an earlier call
+        # set) are always taken, whatever the sample size
+        empty = cfg.endswith("|raw=-") or cfg.endswith("|el=-")
+        if tier == "quick" and n > 400 and not empty:
+            continue
         c.meta["k"] = "builder"
         yield c
 
